@@ -202,8 +202,8 @@ pub fn check(case: &Case) -> Verdict {
     let ma = ra.mul(sa);
     let mb = rb.mul(sb);
     // rounding error of one conversion, as a magnitude, for either direction
-    let b_in_a = amt::product_budget_reps(&[&rb, sb, &sa.recip()], &[sa, sb]).map(|e| e.mul(sa));
-    let a_in_b = amt::product_budget_reps(&[&ra, sa, &sb.recip()], &[sa, sb]).map(|e| e.mul(sb));
+    let b_in_a = amt::conversion_budget(&rb, sb, sa).map(|e| e.mul(sa));
+    let a_in_b = amt::conversion_budget(&ra, sa, sb).map(|e| e.mul(sb));
     let (Some(e1), Some(e2)) = (b_in_a, a_in_b) else {
         return pass("cross-unit-extreme", true);
     };
@@ -238,7 +238,7 @@ impl Property for C02 {
     }
     fn cases(&self, tier: Tier) -> u64 {
         match tier {
-            Tier::Quick => 60_000,
+            Tier::Quick => 300_000,
             Tier::Thorough => 4_000_000,
         }
     }
